@@ -16,6 +16,8 @@ pub type Result<T> = core::result::Result<T, VerifError>;
 impl PartialEq for NodeId {
     #[verifier::external_body]
     fn eq(&self, other: &NodeId) -> (r: bool) ensures r == (*self == *other) { unimplemented!() }
+    #[verifier::external_body]
+    fn ne(&self, other: &NodeId) -> (r: bool) ensures r == (*self != *other) { unimplemented!() }
 }
 
 /// Bit `i` (0 = most significant bit of byte 0) of a 256-bit identifier.
@@ -93,19 +95,35 @@ pub open spec fn kb_remove_post(pre: KBucket, post: KBucket, id: NodeId) -> bool
     &&& post.nodes@ == filt(pre.nodes@, id)
 }
 
-impl KBucket {
-    // ASSUMED here (iter_mut().find(closure) / retain(closure) are outside the Verus dialect);
-    // PROVED on the real functions by Kani harnesses c02_kbucket_add_contract /
-    // c02_kbucket_remove_contract (bounded bucket length).
-    #[verifier::external_body]
-    pub fn add_node(&mut self, node: NodeInfo) -> (r: Result<()>)
-        ensures kb_add_post(*old(self), *final(self), node, r.is_ok()),
-    { unimplemented!() }
-
-    #[verifier::external_body]
-    pub fn remove_node(&mut self, node_id: &NodeId)
-        ensures kb_remove_post(*old(self), *final(self), *node_id),
-    { unimplemented!() }
+// KBucket::add_node / remove_node are VERIFIED in this unit (extracted text) behind two std shims:
+// `v.iter_mut().find(p)` and `v.retain(p)` (the extraction renames exactly those calls; contract =
+// documented std behaviour, ASSUMED). The same composed contracts are additionally checked on the real
+// functions WITH the real std code by the Kani harnesses c02_kbucket_add_contract_* /
+// c02_kbucket_remove_contract_* for small bucket lengths, which also exercises the shim assumption.
+pub open spec fn first_match(s: Seq<NodeInfo>, f: spec_fn(NodeInfo) -> bool, i: int) -> bool {
+    0 <= i < s.len() && f(s[i]) && forall|j: int| 0 <= j < i ==> !f(#[trigger] s[j])
+}
+/// `v.iter_mut().find(p)`: a mutable reference to the first element satisfying p, or None (std docs).
+#[verifier::external_body]
+pub fn verif_iter_mut_find<'a, P: Fn(&NodeInfo) -> bool>(v: &'a mut Vec<NodeInfo>, p: P, Ghost(f): Ghost<spec_fn(NodeInfo) -> bool>) -> (r: Option<&'a mut NodeInfo>)
+    requires
+        forall|x: &NodeInfo| #[trigger] call_requires(p, (x,)),
+        forall|x: &NodeInfo, b: bool| #[trigger] call_ensures(p, (x,), b) ==> b == f(*x),
+    ensures
+        r.is_none() ==> (forall|j: int| 0 <= j < old(v)@.len() ==> !f(#[trigger] old(v)@[j])) && final(v)@ == old(v)@,
+        r.is_some() ==> exists|i: int| first_match(old(v)@, f, i) && *r.unwrap() == old(v)@[i] && final(v)@ == old(v)@.update(i, *final(r.unwrap())),
+{
+    unimplemented!()
+}
+/// `v.retain(p)`: keeps exactly the elements satisfying p, in order (std docs).
+#[verifier::external_body]
+pub fn verif_retain<P: Fn(&NodeInfo) -> bool>(v: &mut Vec<NodeInfo>, p: P, Ghost(f): Ghost<spec_fn(NodeInfo) -> bool>)
+    requires
+        forall|x: &NodeInfo| #[trigger] call_requires(p, (x,)),
+        forall|x: &NodeInfo, b: bool| #[trigger] call_ensures(p, (x,), b) ==> b == f(*x),
+    ensures final(v)@ == old(v)@.filter(f),
+{
+    unimplemented!()
 }
 
 /// One add_node step on the table: the local id is never inserted; otherwise only the bucket of
